@@ -784,6 +784,27 @@ pub fn bound(dim: u8) -> impl Strategy<Value = u64> {
     ]
 }
 
+/// Bound a case decoded from raw fuzzer bytes.
+pub fn sanitize(k: &mut GridCase, max: u8, views_only: bool) -> bool {
+    k.cols %= max + 1;
+    k.rows %= max + 1;
+    for m in k.recv.m.iter_mut().chain(k.recv.m2.iter_mut()) {
+        *m %= 4;
+    }
+    if views_only && !k.recv.is_view() {
+        k.recv.kind = RecvKind::ViewMut;
+    }
+    if !k.recv.is_view() && (k.cols == 0 || k.rows == 0) {
+        k.cols = 0;
+        k.rows = 0;
+    }
+    k.line_keys.truncate(8);
+    if let GOp::Sort { form, .. } = &mut k.op {
+        *form %= 11;
+    }
+    true
+}
+
 fn case(cols: u8, rows: u8, recv: Recv, keyseed: u32, op: GOp) -> GridCase {
     GridCase { cols, rows, recv, keyseed, alphabet: 4, line_keys: vec![], op }
 }
@@ -855,6 +876,9 @@ impl Prop for C13 {
                 op.prop_map(move |op| case(cols, rows, recv, seed, op))
             })
             .boxed()
+    }
+    fn fuzz_sanitize(k: &mut GridCase) -> bool {
+        matches!(k.op, GOp::Swap(_) | GOp::SwapRows(..) | GOp::SwapCols(..) | GOp::RowPairMut(..) | GOp::Fill(_)) && sanitize(k, 12, false)
     }
     fn random_cases(tier: Tier) -> u64 {
         if tier == Tier::Quick { 40_000 } else { 1_500_000 }
@@ -979,6 +1003,9 @@ impl Prop for C14 {
             })
             .boxed()
     }
+    fn fuzz_sanitize(k: &mut GridCase) -> bool {
+        matches!(k.op, GOp::CopyFromSlice { .. } | GOp::CopyFromToodee { .. } | GOp::CopyWithin { .. }) && sanitize(k, 9, false)
+    }
     fn random_cases(tier: Tier) -> u64 {
         if tier == Tier::Quick { 40_000 } else { 1_500_000 }
     }
@@ -1081,6 +1108,9 @@ impl Prop for C15 {
                 op.prop_map(move |op| case(cols, rows, recv, seed, op))
             })
             .boxed()
+    }
+    fn fuzz_sanitize(k: &mut GridCase) -> bool {
+        matches!(k.op, GOp::Translate(..) | GOp::FlipRows | GOp::FlipCols) && sanitize(k, 24, false)
     }
     fn random_cases(tier: Tier) -> u64 {
         if tier == Tier::Quick { 30_000 } else { 1_000_000 }
@@ -1241,6 +1271,15 @@ impl Prop for C16 {
     fn strategy(_t: Tier) -> BoxedStrategy<GridCase> {
         sort_strategy(true)
     }
+    fn fuzz_sanitize(k: &mut GridCase) -> bool {
+        if let GOp::Sort { form, .. } = &mut k.op {
+            *form %= 6;
+        } else {
+            return false;
+        }
+        k.rows %= 5;
+        sanitize(k, 80, false)
+    }
     fn random_cases(tier: Tier) -> u64 {
         if tier == Tier::Quick { 30_000 } else { 800_000 }
     }
@@ -1267,6 +1306,15 @@ impl Prop for C17 {
     }
     fn strategy(_t: Tier) -> BoxedStrategy<GridCase> {
         sort_strategy(false)
+    }
+    fn fuzz_sanitize(k: &mut GridCase) -> bool {
+        if let GOp::Sort { form, .. } = &mut k.op {
+            *form = 6 + *form % 5;
+        } else {
+            return false;
+        }
+        k.cols %= 5;
+        sanitize(k, 80, false)
     }
     fn random_cases(tier: Tier) -> u64 {
         if tier == Tier::Quick { 30_000 } else { 800_000 }
@@ -1368,6 +1416,9 @@ impl Prop for C04 {
         (0u8..=10, 0u8..=10, recv_view(), any::<u32>(), 2u8..=4)
             .prop_flat_map(|(cols, rows, recv, seed, alphabet)| valid_op(if rows == 0 { 0 } else { cols }, if cols == 0 { 0 } else { rows }).prop_map(move |op| GridCase { cols, rows, recv, keyseed: seed, alphabet, line_keys: vec![], op }))
             .boxed()
+    }
+    fn fuzz_sanitize(k: &mut GridCase) -> bool {
+        sanitize(k, 10, true)
     }
     fn random_cases(tier: Tier) -> u64 {
         if tier == Tier::Quick { 60_000 } else { 2_000_000 }
